@@ -179,3 +179,16 @@ Definition sr_step (s : list Z * (option nat * option nat)) (o : rop) : list Z *
   end.
 
 Definition sr_run s (ops : list rop) := fold_left sr_step ops s.
+
+(** * std::unexpected<E> : one value *)
+Definition su_step (E : ty) (s : Z * Z * Z) (o : uop) : Z * Z * Z :=
+  let '(ab, c) := s in
+  match o with
+  | UValue t v => let '(_, y) := spick t ab in (sput t v y, c)
+  | UCopy t => let '(_, y) := spick t ab in (sput t y y, c)
+  | UMove t => let '(_, y) := spick t ab in (sput t y (moved_val E y), c)
+  | USwap => ((snd ab, fst ab), c)
+  | USetC v => (ab, v)
+  end.
+
+Definition su_run (E : ty) s (ops : list uop) := fold_left (su_step E) ops s.
